@@ -170,6 +170,8 @@ def boundary_layouts(rnd):
     out.append(('n_2^32-1', [(1, 2 ** 32 - 1)]))
     # an INNER archive whose retention does not fit 31 bits while its 32-bit wrapped value looks shorter
     # than the next archive's (the last archive is in range, the offsets fit)
+    out.append(('inner_4gib', [(1, 400000000), (2, 400000000)]))        # the second offset does not fit 32 bits although each wrapped size does
+    out.append(('inner_4gib_b', [(1, 357913942), (2, 357913942), (4, 357913942)]))
     out.append(('inner_ret_2^31', [(2 ** 20, 2048), (2 ** 21, 1023)]))
     out.append(('inner_ret_wrap_small', [(2 ** 20, 4097), (2 ** 21, 1000)]))
     out.append(('inner_ret_wrap_mid', [(2 ** 10, 4), (2 ** 20, 2048), (2 ** 21, 1023)]))
@@ -186,7 +188,7 @@ def gen_c07(rnd, n, thorough=False):
         def add(op, line):
             lines.append(line); tags['ops'][op] = tags['ops'].get(op, 0) + 1
         bl = boundary_layouts(rnd)
-        for tag, layout in rnd.sample(bl, 7) + [bl[0]] + [rnd.pick([b for b in bl if b[0].startswith('inner_ret')])]:
+        for tag, layout in rnd.sample(bl, 7) + [bl[0]] + [rnd.pick([b for b in bl if b[0].startswith('inner_')])]:
             tags['rules'][tag] = tags['rules'].get(tag, 0) + 1
             m = rnd.pick([1, 2, 3, 4, 5, 6]) if rnd.chance(0.8) else rnd.pick([0, 7, 8, 9, -1, 2 ** 31, 2 ** 32 + 2, 2 ** 32 + 1, -2 ** 32 + 3, 2 ** 33 + 6, 2 ** 32, 2 ** 40 + 5])
             xff = rnd.pick(XFF_VALID) if rnd.chance(0.75) else rnd.pick(XFF_ALL)
